@@ -7,7 +7,7 @@ or an ndarray on either side of a Scalar / Array, on the real code and on the mo
 import math
 
 import _ops_common as oc
-from _ops_common import model_line, show  # noqa: F401  (part of the module API)
+from _ops_common import model_line  # noqa: F401  (part of the module API)
 
 ID = "C09"
 LEAN_MODULES = ["Barril.Props.C09"]
@@ -18,7 +18,8 @@ RULE = ("x in {Scalar, Array over list / tuple / ndarray, lengths 0..5} with a s
         "int64/int32} and 1-D ndarrays (float64/float32/int64; plain, numpy.ma masked arrays with nothing / some elements masked, "
         "ndarray subclass views with __array_priority__ 1 / 50; same length, length 1, other length, empty); all ten forms "
         "k*x x*k x/k x//k x+k k+x x-k k-x k/x k//x; zero divisors in float slots; a malformed stream (str, None, list, "
-        "Scalar with ndarray, Scalar with Array).  distinct = distinct (form, operands); non-trivial = the real code "
+        "Scalar with ndarray, Scalar with Array); SEQUENCES of 2-3 database-computed operations in one process on operands of "
+        "one quantity type and unit but different categories, every step compared with its full quantity.  distinct = distinct (form, operands); non-trivial = the real code "
         "returned a barril object")
 EXHAUSTIVE = {"quick": False, "thorough": False}
 ASSUMPTIONS = [
@@ -112,11 +113,62 @@ def _gen(ctx, salt, n_simple, n_derived, n_junk):
         yield _case(f, side, x, other)
 
 
+# operator forms whose result quantity is computed by the database (Multiply / Divide / FloorDivide with the
+# empty quantity): for Arrays; for Scalars only k/x and k//x get there
+_DB_FORMS_ARRAY = [("mul", "kx"), ("mul", "xk"), ("div", "xk"), ("floordiv", "xk"), ("div", "kx"), ("floordiv", "kx")]
+_DB_FORMS_SCALAR = [("div", "kx"), ("floordiv", "kx")]
+
+
+def _gen_seq(ctx, salt, n):
+    """SEQUENCES of two or three operations of one process on operands that share quantity type and unit but
+    differ in category (length / depth / diameter ... in m): every step must keep ITS operand's quantity,
+    whatever was computed before (nothing about a result may be remembered across categories)"""
+    rng = ctx.fresh_rng("C09seq" + salt)
+    multi = sorted(qt for qt in ctx.qtypes if len(ctx.cats[qt]) > 1)
+    for i in range(n):
+        qt = rng.choice(multi) if (i % 3 or "length" not in multi) else "length"
+        u = rng.choice(ctx.units[qt])
+        cats = rng.sample(ctx.cats[qt], min(len(ctx.cats[qt]), rng.choice([2, 2, 3])))
+        extra = oc.simple_q(ctx, rng)[0] if rng.random() < 0.25 else None
+        if extra is not None and ctx.db.GetCategoryQuantityType(extra[0]) == qt:
+            extra = None
+        e = rng.choice([1, 1, 1, 2, -1])
+        shape = rng.choice(["list", "tuple", "nd", "list", "scalar"])
+        forms = _DB_FORMS_SCALAR if shape == "scalar" else _DB_FORMS_ARRAY
+        form = rng.choice(forms)
+        ty = rng.choice(["int", "float", "f64", "i64"])
+        steps = []
+        for c_ in cats:
+            q = [[c_, u, e]] + ([[extra[0], extra[1], -1]] if extra is not None else [])
+            if extra is None and e != 1 and rng.random() < 0.5:
+                q = [[c_, u, 1]]
+            if not oc.buildable(oc.scalar_spec(q, 1.0)):
+                break
+            f, side = form if rng.random() < 0.8 else rng.choice(forms)
+            x = _x(rng, q, shape, rng.choice([1, 2, 3]), False, nonzero=True)
+            k = _k(rng, ty, allow_zero=False)
+            steps.append(_case(f, side, x, k))
+        if len(steps) >= 2:
+            yield dict(op="seq", steps=[model_line(st) for st in steps], _t=dict(steps=[st["_t"] for st in steps]))
+
+
+def _steps(c):
+    return [dict(op="binop", _t=t) for t in c["_t"]["steps"]]
+
+
 def cases(ctx):
     if ctx.tier == "quick":
         yield from _gen(ctx, "q", 30, 25, 600)
+        yield from _gen_seq(ctx, "q", 600)
     else:
         yield from _gen(ctx, "t", 200, 120, 5000)
+        yield from _gen_seq(ctx, "t", 6000)
+
+
+def show(c):
+    if c.get("op") == "seq":
+        return "; then ".join(oc.show(st) for st in _steps(c))
+    return oc.show(c)
 
 
 def case_key(c):
@@ -124,6 +176,10 @@ def case_key(c):
 
 
 def impl(c, ctx):
+    if c["op"] == "seq":
+        outs = [oc.run_binop(t["f"], t["a"], t["b"]) for t in c["_t"]["steps"]]
+        oc.count(ctx, "seq/%d steps" % len(outs))
+        return dict(outs=outs)
     t = c["_t"]
     io = oc.run_binop(t["f"], t["a"], t["b"])
     oc.count(ctx, oc.branch_key(c, io))
@@ -131,11 +187,21 @@ def impl(c, ctx):
 
 
 def agree(c, io, mo, ctx):
+    if c["op"] == "seq":
+        if len(io["outs"]) != len(mo.get("outs", [])):
+            return "the model answered %d steps for %d" % (len(mo.get("outs", [])), len(io["outs"]))
+        for i, (st, a, b) in enumerate(zip(_steps(c), io["outs"], mo["outs"])):
+            why = oc.agree_binop(st, a, b)   # compares the whole quantity: category, unit, exponent of every item
+            if why:
+                return "step %d (%s): %s" % (i + 1, oc.show(st), why)
+        return None
     why = oc.agree_binop(c, io, mo)
     return why
 
 
 def nontrivial(c, io):
+    if c["op"] == "seq":
+        return all("ok" in o and o["ok"]["t"] in ("scalar", "array") for o in io["outs"])
     return "ok" in io and io["ok"]["t"] in ("scalar", "array")
 
 
@@ -156,6 +222,16 @@ def oracle(c, ctx):
     import numpy as np
     from barril.units import Array, Scalar
 
+    if c.get("op") == "seq":
+        # the steps are executed in order in this process; each one is judged on its own operands
+        for i, st in enumerate(_steps(c)):
+            f_ = oracle(st, ctx)
+            if f_:
+                f_ = dict(f_)
+                f_["step"] = i + 1
+                f_["sequence"] = show(c)
+                return f_
+        return None
     if c.get("op") != "binop":
         return None
     t = c["_t"]
@@ -289,4 +365,5 @@ def _near_int(p, f32):
 
 
 def search(ctx):
+    yield from _gen_seq(ctx, "search", 400)
     yield from _gen(ctx, "search", 12, 8, 0)
